@@ -155,7 +155,12 @@ def validator_content(ctx, prog):
     ok = len(rng) == 2 and all(c[0] == "Ge" and const_named(c[2], "block_hash::ALPHABET_SIZE") and const_value(c[2]) == 64 for c in rng)
     ctx.ob(RV, "verify_block_hash_internal: both symbol-range tests are `element >= ALPHABET_SIZE (64)` (normalisation branch and plain branch agree)", ok,
            "range comparisons: %s" % [(c[0], show(c[1])[:40], show(c[2])[:40]) for c in rng], f.loc())
-    tail = [c for c in cmps if c[0] == "Ne" and const_value(c[2]) == 0 and c[3] is not f]
+    # `any(x != 0)` refused, or equivalently `all(x == 0)` required (the closure body of either spelling)
+    tail = [c for c in cmps if c[0] in ("Ne", "Eq") and const_value(c[2]) == 0 and c[3] is not f]
+    for c in list(tail):
+        callers = [callee_of(t).split("::")[-1] for i, t in f.calls() if any(strip(sy.operand(a))[0] == "agg" and strip(sy.operand(a))[1] == "Closure:" + c[3].path for a in t["args"])]
+        if not ((c[0] == "Ne" and callers == ["any"]) or (c[0] == "Eq" and callers == ["all"])):
+            tail.remove(c)
     ctx.ob(RV, "verify_block_hash_internal: the tail test rejects any non-zero element past the length", len(tail) == 1, "tail comparisons: %d" % len(tail), f.loc())
     # the slices: [len..] for the tail and [..len] for the content
     from . import fields as F
